@@ -109,6 +109,10 @@ type summary struct {
 	Stalls      uint64            `json:"stalls"`
 	StallOps    uint64            `json:"ops_completed_during_stall"`
 	LockWaits   uint64            `json:"lock_waits"`
+	LibGo       uint64            `json:"library_goroutines"`
+	ChanOps     uint64            `json:"channel_ops"`
+	ChanWaits   uint64            `json:"channel_waits"`
+	Poison      string            `json:"poison,omitempty"`
 	LateSpawns  uint64            `json:"late_spawns"`
 	Publishes   uint64            `json:"publishes"`
 	Capped      uint64            `json:"capped_runs"`
@@ -166,6 +170,16 @@ func main() {
 		}
 		out.Write(b)
 		out.WriteByte('\n')
+	}
+
+	// The simulator found, at run time, that it cannot own what this library does with goroutines
+	// or channels: from here on nothing this process computes means anything (a polling select
+	// never fires, a parser loops on a channel closed by an unwinding goroutine). Say so and stop.
+	zsimrt.OnPoison = func(why string) {
+		b, _ := json.Marshal(summary{T: "sum", Race: raceEnabled, Poison: why})
+		out.Flush()
+		os.Stdout.Write(append(append([]byte("\n"), b...), '\n'))
+		os.Exit(0)
 	}
 
 	if *probeFile != "" {
@@ -258,6 +272,12 @@ func main() {
 			fmt.Fprintf(errw, "@@END %d\n", run)
 			errw.Flush()
 		}
+		if why := zsimrt.Poisoned(); why != "" {
+			// the simulator cannot own what this library does with goroutines or channels: nothing
+			// from this run is used, the worker stops and the check falls back to the degraded mode
+			sum.Poison = why
+			break
+		}
 		sum.Last = run
 		account(&sum, o, sigs, sigFile)
 		if len(sum.Samples) < *nSamples && o.Stats.Switches > 0 {
@@ -316,6 +336,9 @@ func account(sum *summary, o *Outcome, sigs map[uint64]struct{}, sigFile *bufio.
 	sum.Stalls += o.Stats.Stalls
 	sum.StallOps += o.Stats.StallOps
 	sum.LockWaits += o.Stats.LockWaits
+	sum.LibGo += o.Stats.LibGo
+	sum.ChanOps += o.Stats.ChanOps
+	sum.ChanWaits += o.Stats.ChanWaits
 	sum.CBCalls += uint64(o.CBCalls)
 	sum.Policies[sc.Sched.Policy]++
 	sum.Shapes[sc.Shape]++
